@@ -123,7 +123,10 @@ def to_scenario(sid, script, conn=None, rules=None, params=None, settle_ms=None)
         elif a == "incall":
             steps.append({"a": "sendCall", "callID": "in%d" % op["cid"], "tag": 100 + op["cid"]})
         elif a in ("recvCall", "recvReply"):
-            steps.append({"a": a, "g": op["g"], "ctxMs": CTX_MS})
+            st = {"a": a, "g": op["g"], "ctxMs": op.get("ctxMs", CTX_MS)}
+            if op.get("wait"):
+                st["wait"] = True
+            steps.append(st)
         elif a == "expire":
             steps.append({"a": "await", "ev": "ApiRet", "match": {"tag": op["tag"], "psum": call_psum(owner.get(op["tag"], "?"), op["tag"])}, "ms": EXPIRE_MS + 1500})
         elif a == "cut":
@@ -237,6 +240,12 @@ def core_family(pid):
     s += [{"a": "incall", "cid": 2100}, {"a": "reply", "tag": 1, "cid": 2101}, {"a": "ack", "tag": 1, "code": 1}, {"a": "ack", "tag": 2, "code": 1}]
     s += [{"a": "recvReply", "g": "RR"}, {"a": "recvReply", "g": "RR"}, {"a": "recvCall", "g": "RC"}, {"a": "close"}]
     add("replyInboxFull", s)
+    # receives whose context is already done while calls / replies are waiting in the inboxes: a poll hands an item over or reports the
+    # context error - it must never consume an item and report an error
+    s = [{"a": "incall", "cid": 3000 + n} for n in range(5)] + [{"a": "reply", "tag": 0, "cid": 3100 + n} for n in range(4)] + [{"a": "sleep", "ms": 60}]
+    s += [{"a": "recvCall", "g": "RC", "ctxMs": -1, "wait": True}] * 12 + [{"a": "recvReply", "g": "RR", "ctxMs": -1, "wait": True}] * 12
+    s += [{"a": "recvCall", "g": "RC", "wait": True, "ctxMs": 400}] * 5 + [{"a": "recvReply", "g": "RR", "wait": True, "ctxMs": 400}] * 4 + [{"a": "close"}]
+    add("recvPollDoneCtx", s)
     # reconnect between call and ack: the ack (and the reply) arrive on the next incarnation
     for n, kinds in enumerate((["call", "callWait", "replyCall"], ["callWait", "callWait", "call"])):
         s = calls(kinds) + [{"a": "ack", "tag": 3, "code": 1}, {"a": "cut"}, {"a": "redial"}]
